@@ -184,23 +184,44 @@ def scheduled_token_is_released_or_unscheduled(ctx):
                       and any(norm(a) == tok for a in c.args) for x in g.nodes_of(c))
             hn = [x for x in g.nodes if x.kind == 'handler' and x.ast is h]
             # search: leaving a consume node by its normal edge is success
-            seen, stack, bad = set(hn), list(hn), None
+            # (boolean locals set to a constant on the way are remembered: `ok = False` in the handler makes the `if ok: return`
+            # that follows infeasible - the shape a retry body takes when it is written as a helper returning a success flag)
+            def _consts_after(node, consts):
+                st = node.ast if node.kind == 'stmt' else None
+                if isinstance(st, ast.Assign) and len(st.targets) == 1 and isinstance(st.targets[0], ast.Name):
+                    c2 = dict(consts)
+                    if isinstance(st.value, ast.Constant) and isinstance(st.value.value, bool):
+                        c2[st.targets[0].id] = st.value.value
+                    else:
+                        c2.pop(st.targets[0].id, None)
+                    return c2
+                return consts
+            start = [(x, ()) for x in hn]
+            seen, stack, bad = set(start), list(start), None
             prev = {x: None for x in hn}
             while stack and bad is None:
-                a = stack.pop()
+                a, cs_ = stack.pop()
+                consts = _consts_after(a, dict(cs_))
                 for b, l in g.succ[a]:
                     if a in cn and l != 'exc':
                         continue  # consume returned normally: token released
                     if a in cn and b is g.rexit:
                         continue  # an exception other than RequestExceededException: out of scope
-                    if b in uns or b in seen:
+                    if a.kind in ('if', 'while') and l in ('t', 'f') and a.ast is not None:
+                        t_, pol_ = a.ast, l == 't'
+                        while isinstance(t_, ast.UnaryOp) and isinstance(t_.op, ast.Not):
+                            t_, pol_ = t_.operand, not pol_
+                        if isinstance(t_, ast.Name) and t_.id in consts and consts[t_.id] != pol_:
+                            continue  # contradicts what the flag was just set to
+                    key = (b, tuple(sorted(consts.items())))
+                    if b in uns or key in seen:
                         continue
-                    prev[b] = a
+                    prev.setdefault(b, a)
                     if b in (g.exit, g.rexit):
                         bad = b
                         break
-                    seen.add(b)
-                    stack.append(b)
+                    seen.add(key)
+                    stack.append(key)
             path = []
             x = bad
             while x is not None:
